@@ -87,8 +87,28 @@ def search(ctx):
         tsan(ctx, 6000, "search:c16-tsan")
 
 
+def named_functions(ctx):
+    """One obligation per function of src/value/list.rs above the lock that takes a
+    list's lock or reaches the element buffer (enumerated by the extractor, listed in
+    the header of the generated file): it must be one of the operations the model has
+    steps for. A new helper is a broken obligation *by name*."""
+    path = os.path.join(common.LEAN, "RotoV", "Generated", "C16Facts.lean")
+    try:
+        text = open(path).read()
+    except OSError:
+        return
+    for line in text.splitlines():
+        line = line.strip()
+        for tag, ok in (("MODELLED ", True), ("UNMODELLED ", False)):
+            if line.startswith(tag):
+                name, _, why = line[len(tag):].partition(": ")
+                ctx.obligation("modelled:" + name.replace(" ", "_"), ok,
+                               "" if ok else "not an operation the model has steps for: " + why)
+
+
 def run(ctx):
-    ctx.extract(["c16facts"])
+    if ctx.extract(["c16facts"]):
+        named_functions(ctx)
     proved = ctx.prove(PROPS, extra_modules=MODULES)
     model = True
     if not proved:
